@@ -193,7 +193,11 @@ def run(tier):
         v.violation("timestamps seen by the node for %s: %s" % (
             [(s["step"]["op"], "explicit %d" % s["step"]["ts"] if s["step"]["explicit"] else "generated", "evicted" if s["step"]["evict"] else "") for s in x["steps"]],
             [[(f["opcode"], f["ts"][0] * (1 << 30) + f["ts"][1] if f["has_ts"] else None) for f in s["frames"]] for s in x["steps"]]), [x])
-    v.add(e2e_scripts=len(erows), e2e_frames=sum(len(s["frames"]) for x in erows for s in x["steps"]))
+    lwt_live = sum(1 for x in erows if x.get("lwt_confirmed") == 1 and any(s["step"]["op"] == "execute_lwt" for s in x["steps"]))
+    if lwt_live == 0 and not v.violations:
+        raise ToolError("c18 e2e: no script executed a statement the driver holds as LWT-confirmed (the mock's LWT mark did not arrive)")
+    v.add(e2e_scripts=len(erows), e2e_frames=sum(len(s["frames"]) for x in erows for s in x["steps"]),
+          e2e_ops=sorted({s["step"]["op"] for x in erows for s in x["steps"]}), e2e_scripts_with_lwt_marked_statement=lwt_live)
     v.add(drift=drift, exhaustive=True)
     v.assumptions += ["sequentially consistent interleavings at hook granularity (the code uses SeqCst atomics)",
                       "clock readings are scripted per thread through the cfg(scylla_verif) clock override; everything else in compute_next is the real code",
